@@ -56,6 +56,21 @@ pub fn bip322_verify_precompile(call: &PrecompileCall) -> InterpreterResult {
         return precompile_error(interpreter_result, "Failed to decode signature");
     };
 
+    // bip322 0.0.10 panics on two witness shapes instead of returning an error: a taproot
+    // address with an empty witness (it indexes the first element), and a P2SH address whose
+    // second witness element is an uncompressed public key (it unwraps the witness public key
+    // hash). Neither can be a valid signature.
+    if signature.is_empty() {
+        return precompile_error(interpreter_result, "Failed to verify signature");
+    }
+    if address.address_type() == Some(bitcoin::AddressType::P2sh) {
+        if let Some(Ok(public_key)) = signature.nth(1).map(bitcoin::PublicKey::from_slice) {
+            if !public_key.compressed {
+                return precompile_error(interpreter_result, "Failed to verify signature");
+            }
+        }
+    }
+
     let Ok(_) = verify_simple(&address, &message, signature) else {
         return precompile_error(interpreter_result, "Failed to verify signature");
     };
